@@ -158,9 +158,18 @@ class SparselyBin(Factory, Container):
             out.bins[i] = Count.ed(v.entries)
         return out.specialize()
 
+    def _keepContent(self, out):
+        # without a value template (ed() or JSON) the type and name of the bins are only known from here
+        if self.value is None:
+            out.contentType = self.contentType
+            out.contentName = getattr(self, "contentName", None)
+        return out
+
     @inheritdoc(Container)
     def zero(self):
-        return SparselyBin(self.binWidth, self.quantity, self.value, self.nanflow.zero(), self.origin)
+        return self._keepContent(
+            SparselyBin(self.binWidth, self.quantity, self.value, self.nanflow.zero(), self.origin)
+        )
 
     @inheritdoc(Container)
     def __add__(self, other):
@@ -188,7 +197,7 @@ class SparselyBin(Factory, Container):
                     out.bins[i] = out.bins[i] + v
                 else:
                     out.bins[i] = v
-            return out.specialize()
+            return self._keepContent(out).specialize()
 
         raise ContainerException(f"cannot add {self.name} and {other.name}")
 
@@ -462,7 +471,7 @@ class SparselyBin(Factory, Container):
             else:
                 binsName = None
         else:
-            binsName = None
+            binsName = getattr(self, "contentName", None)
 
         if len(self.bins) > 0:
             bins_type = list(self.bins.values())[0].name
@@ -554,6 +563,7 @@ class SparselyBin(Factory, Container):
                 raise JsonFormatException(json, "SparselyBin.origin")
 
             out = SparselyBin.ed(binWidth, entries, json["bins:type"], bins, nanflow, origin)
+            out.contentName = binsName
             out.quantity.name = nameFromParent if name is None else name
             return out.specialize()
 
